@@ -243,8 +243,48 @@ func Enumerate(e *Emitter, quickStride int) {
 			}
 		}
 	}
+	// family 3: a stream config function that looks at the session (NewNegotiator documents that
+	// it is called for every stream / features list with the session): a mandatory login feature
+	// sets Authn with or without a stream restart; two more features are configured always, only
+	// before or only after Authn. Both roles, every second advertisement / selection.
+	type when struct{ cnec, cproh uint8 }
+	whens := []when{{0, 0}, {Authn, 0}, {0, Authn}}
+	for _, restart := range bools {
+		login := Beh{NS: 2, Loc: 1, Proh: Authn, Negotiable: true, ListReq: true, Mask: Authn, Restart: restart}
+		for _, wb := range whens {
+			for _, wc := range whens {
+				for _, rb := range bools {
+					for _, rc := range bools {
+						b := Beh{NS: 3, Loc: 1, Negotiable: true, ListReq: rb, CNec: wb.cnec, CProh: wb.cproh}
+						c := Beh{NS: 4, Loc: 1, Negotiable: true, ListReq: rc, CNec: wc.cnec, CProh: wc.cproh}
+						cfg := []Beh{login, b, c}
+						first := Item{Kind: 'A', Adv: []AdvItem{{NS: 2, Loc: 1, Req: true}}}
+						pre := []Item{hdr, first}
+						preS := []Item{hdr, {Kind: 'E', NS: 2, Loc: 1, Payload: true}}
+						if restart {
+							pre = append(pre, hdr)
+							preS = append(preS, hdr)
+						}
+						for _, s := range seqs(3, 2) {
+							var adv []AdvItem
+							var sel []Item
+							for _, x := range s {
+								ns := []int{3, 4, 9}[x]
+								req := (ns == 3 && rb) || (ns == 4 && rc)
+								adv = append(adv, AdvItem{NS: ns, Loc: 1, Req: req})
+								sel = append(sel, Item{Kind: 'E', NS: ns, Loc: 1, Payload: true})
+							}
+							e.Do(Case{Cfg: cfg, Script: append(append([]Item(nil), pre...), Item{Kind: 'A', Adv: adv}), Fault: "-", Peer: polite}, "enumdyn")
+							e.Do(Case{St0: Received, Cfg: cfg, Script: append(append([]Item(nil), preS...), sel...), Fault: "-", Peer: polite}, "enumdyn")
+						}
+					}
+				}
+			}
+		}
+	}
 	if !r.Quick() {
 		r.Exhaustive = append(r.Exhaustive,
+			"session-dependent stream config: mandatory login feature (sets Authn, with / without restart) + two features each configured always / only with Authn / only without Authn, mandatory or voluntary x every second advertisement / selection sequence of length <= 2 over {f2,f3,unknown}, both roles",
 			"two features (necessary, prohibited, mask over {0,Authn}; restart; mandatory; negotiable) x initial state {0,Authn} x every advertisement / selection sequence of length <= 2 over {f1,f2,unknown}, both roles",
 			"STARTTLS-namespace feature (necessary {0,Authn}, prohibited {0,Secure}, restart, mandatory, negotiable) + one other feature x initial state {0,Secure} x every first advertisement of length <= 2")
 	}
@@ -356,6 +396,17 @@ func RandomCase(rnd *common.Rand, faults bool) Case {
 	}
 	if rnd.Bool() {
 		st0 |= Received
+	}
+	// a quarter of the configurations come from a config function that looks at the session:
+	// features present only in some states
+	if rnd.Chance(1, 4) {
+		bits := []uint8{0, 0, Secure, Authn, Secure | Authn}
+		for i := range cfg {
+			if rnd.Bool() {
+				cfg[i].CNec = bits[rnd.Intn(len(bits))]
+				cfg[i].CProh = bits[rnd.Intn(len(bits))]
+			}
+		}
 	}
 	cs := Case{St0: st0, WS: rnd.Chance(1, 4), Tee: rnd.Chance(1, 4), Cfg: cfg, Fault: "-", Peer: randomPeer(rnd, 3+rnd.Intn(8))}
 	if faults && rnd.Chance(2, 3) {
